@@ -38,8 +38,29 @@ def r7(ctx, cfg):
     F = cfg.facts
     R = "C09.R7"
     q.who_may_call(ctx, R, F, B + "set_balance", {B + "init_balance", B + "mint", B + "burn"}, "balances are written by init_balance, mint and burn only")
-    q.who_may_call(ctx, R, F, B + "mint", {B + "send", SUDO}, "coins are created only by a transfer's credit side or BankSudo::Mint")
-    q.who_may_call(ctx, R, F, B + "burn", {B + "send", EXEC}, "coins are destroyed only by a transfer's debit side or BankMsg::Burn")
+    def module_arm(helper):
+        # a further message arm of the bank module may use the helper when it does what the existing arms do: the amount is a
+        # field of the message as it is, the account is the sender or a validated address of the message, the store is the
+        # bank's view, and the helper's verdict is what the arm answers
+        def acc(caller):
+            if caller not in (EXEC, SUDO):
+                return False
+            P0 = cfg.prov
+            ok0 = False
+            for h, b, t in q.lexical_calls(F, caller, B + helper):
+                a = P0.call_args(h, t, b)
+                st, who, amt = peel(a[1]), a[2], a[3]
+                good_store = st[0] == "call" and st[1] == "prefixed_storage::prefixed" and is_param(st[2][0], "storage") and peel(st[2][1]) == ("item", "bank::NAMESPACE_BANK")
+                good_who = is_param(who, "sender") or (peel(who)[0] == "ok" and contains(peel(who)[1], lambda x: x[0] == "call" and x[1].endswith("Api::addr_validate") and
+                                                                                          contains(x[2][1], lambda y: y[0] == "field" and is_param(peel(y[1])[1] if peel(y[1])[0] == "variant" else y[1], "msg"))))
+                good_amt = just(amt, lambda y: y[0] == "field" and y[2] == "amount" and is_param(peel(y[1])[1] if peel(y[1])[0] == "variant" else y[1], "msg"))
+                if not (good_store and good_who and good_amt and q.error_propagates(P0, h, b)):
+                    return False
+                ok0 = True
+            return ok0
+        return acc
+    q.who_may_call(ctx, R, F, B + "mint", {B + "send", SUDO}, "coins are created only by a transfer's credit side or BankSudo::Mint", accept=module_arm("mint"))
+    q.who_may_call(ctx, R, F, B + "burn", {B + "send", EXEC}, "coins are destroyed only by a transfer's debit side or BankMsg::Burn", accept=module_arm("burn"))
     q.who_may_call(ctx, R, F, B + "send", {EXEC}, "transfers are performed by BankMsg::Send only")
 
 
